@@ -18,7 +18,7 @@
 static unsigned g_randctr;
 int rand (void) { g_randctr = g_randctr * 1103515245u + 12345u; return (int) ((g_randctr >> 16) & 0x7fff); }
 
-enum { S_CREATE, S_SET, S_BUILD, S_DWS, S_SAS, S_FIN, S_QUERY, S_CTRL, S_RELEASE };
+enum { S_CREATE, S_SET, S_BUILD, S_DWS, S_SAS, S_FIN, S_QUERY, S_CTRL, S_RELEASE, S_CASCADE, S_BUILDALL };	/* S_CASCADE: one atomic step submitting all sources but one in peeling-cascade order; S_BUILDALL: all repair symbols */
 typedef struct { int kind; uint64_t a; } step_t;
 #define MAXSTEP 8
 typedef struct {
@@ -35,6 +35,7 @@ static int st_states, st_trans, st_exec, st_dn, st_pairs, st_triples, st_quads;
 typedef struct {
 	const script_t *s; int pc; of_session_t *ses;
 	unsigned char **sym; void **tab; void **src; unsigned char **lib_built;
+	int *order; int norder;	/* S_CASCADE submission order (from the reference matrix) */
 	uint64_t trace[MAXSTEP];
 } inst_t;
 
@@ -70,6 +71,16 @@ static void inst_init (inst_t *x, const script_t *s)
 	x->sym = calloc ((size_t) n, sizeof (void *)); x->tab = calloc ((size_t) n, sizeof (void *)); x->src = calloc ((size_t) s->k, sizeof (void *)); x->lib_built = calloc ((size_t) n, sizeof (void *));
 	for (i = 0; i < n; i++) x->sym[i] = calloc (1, (size_t) s->len);
 	gen_codeword (s, x->sym);
+	if (s->codec == 3 && s->N1 <= s->r && s->N1 >= 3 && s->seed >= 1) {
+		int st, miss = -1, pass, e;
+		for (st = 0; st < s->nsteps; st++) if (s->st[st].kind == S_CASCADE) miss = (int) s->st[st].a;
+		if (miss >= 0) {
+			bitmat *H = rfc5170_H (s->k, n, s->N1, (uint64_t) s->seed, NULL);
+			x->order = malloc (sizeof (int) * (size_t) s->k);
+			for (pass = 0; pass < 2; pass++) for (e = 0; e < s->k; e++) if (e != miss && bm_get (H, 0, e) == pass) x->order[x->norder++] = e;
+			bm_free (H);
+		}
+	}
 }
 static void inst_free (inst_t *x)
 {
@@ -77,7 +88,7 @@ static void inst_free (inst_t *x)
 	if (x->ses) of_release_codec_instance (x->ses);
 	for (i = 0; i < x->s->k; i++) { int own = 0, j; for (j = 0; j < n; j++) if (x->src[i] == x->sym[j]) own = 1; if (x->src[i] && !own) free (x->src[i]); }
 	for (i = 0; i < n; i++) { free (x->sym[i]); free (x->lib_built[i]); }
-	free (x->sym); free (x->tab); free (x->src); free (x->lib_built);
+	free (x->sym); free (x->tab); free (x->src); free (x->lib_built); free (x->order);
 }
 
 /* execute the next call of the instance; returns the observation hash of this step */
@@ -125,6 +136,11 @@ static uint64_t inst_step (inst_t *x)
 		if (s->codec == 3) { st = of_get_control_parameter (x->ses, OF_CRTL_LDPC_STAIRCASE_IS_LAST_SYMBOL_NULL, &b, sizeof b); vf_h_u64 (&h, b ? 1 : 0); }
 		break; }
 	case S_RELEASE: st = of_release_codec_instance (x->ses); x->ses = NULL; break;
+	case S_CASCADE: for (i = 0; i < x->norder; i++) { st = of_decode_with_new_symbol (x->ses, x->sym[x->order[i]], (UINT32) x->order[i]); vf_h_u64 (&h, (uint64_t) st); } break;
+	case S_BUILDALL:
+		for (i = 0; i < n; i++) x->tab[i] = i < s->k ? x->sym[i] : x->lib_built[i];
+		for (i = s->k; i < n; i++) { if (!x->lib_built[i]) { x->lib_built[i] = calloc (1, (size_t) s->len); x->tab[i] = x->lib_built[i]; } st = of_build_repair_symbol (x->ses, x->tab, (UINT32) i); vf_h_u64 (&h, (uint64_t) st); if (st == OF_STATUS_OK) vf_h_bytes (&h, x->tab[i], (size_t) s->len); }
+		break;
 	}
 	vf_h_u64 (&h, (uint64_t) st);
 	x->trace[x->pc] = h.a ^ h.b;
@@ -176,6 +192,9 @@ static void build_catalogue (void)
 	s = new_script ("ldpc-decoder-same-seed-as-encoder", 3, OF_DECODER, 6, 4, 9, 0, 3, 5, 1); add (s, S_CREATE, 0); add (s, S_SET, 0); add (s, S_DWS, 9); add (s, S_DWS, 8); add (s, S_DWS, 7); add (s, S_FIN, 0); add (s, S_QUERY, 0); add (s, S_RELEASE, 0);
 	s = new_script ("ldpc-encoder-maxseed", 3, OF_ENCODER, 5, 4, 6, 0, 3, 2147483646, 0); add (s, S_CREATE, 0); add (s, S_SET, 0); add (s, S_BUILD, 5); add (s, S_BUILD, 6); add (s, S_BUILD, 7); add (s, S_RELEASE, 0);
 	s = new_script ("rs2m4-encoder-same-kr-as-m8", 2, OF_ENCODER, 4, 3, 7, 4, 0, 0, 0); add (s, S_CREATE, 0); add (s, S_SET, 0); add (s, S_BUILD, 4); add (s, S_BUILD, 6); add (s, S_RELEASE, 0);
+	/* a long staircase decoded in one peeling cascade (330 nested rebuilt symbols), and a code whose equations hold 300+ symbols */
+	s = new_script ("ldpc-decoder-long-cascade", 3, OF_DECODER, 330, 330, 4, 0, 3, 6, 0); add (s, S_CREATE, 0); add (s, S_SET, 0); add (s, S_CASCADE, 7); add (s, S_DWS, 660 - 1); add (s, S_QUERY, 0); add (s, S_RELEASE, 0);
+	s = new_script ("ldpc-encoder-wide-rows", 3, OF_ENCODER, 300, 3, 4, 0, 3, 4, 0); add (s, S_CREATE, 0); add (s, S_SET, 0); add (s, S_BUILDALL, 0); add (s, S_RELEASE, 0);
 	s = new_script ("ldpc-rejected-seed", 3, OF_ENCODER, 5, 4, 4, 0, 3, 0, 0); add (s, S_CREATE, 0); add (s, S_SET, 0); add (s, S_RELEASE, 0);
 }
 
@@ -212,7 +231,7 @@ static void run_schedule (const combo_t *c, const unsigned char *sched, int len)
 		const script_t *s = x[i].s;
 		for (j = 0; j < s->nsteps; j++)
 			if (x[i].trace[j] != BASE[c->sc[i]][j]) {
-				static const char *kn[] = {"create", "set_fec_parameters", "build", "decode_with_new_symbol", "set_available_symbols", "finish_decoding", "query", "get_control_parameter", "release"};
+				static const char *kn[] = {"create", "set_fec_parameters", "build", "decode_with_new_symbol", "set_available_symbols", "finish_decoding", "query", "get_control_parameter", "release", "cascade-of-decode_with_new_symbol", "build-all"};
 				char sig[200];
 				snprintf (sig, sizeof sig, "script=%s|diverges-at=%s|with=%s", s->name, kn[s->st[j].kind], c->ns == 2 ? SCR[c->sc[1 - i]].name : "two-others");
 				vf_viol ("C12", sig, "%s", cs);
@@ -286,11 +305,12 @@ int main (int argc, char **argv)
 	if (vf_replay_case ()) { vf_pool_run (1, item_replay, NULL, 120); vf_finish (); return 0; }
 	CB = calloc (16384, sizeof (combo_t));
 	for (a = 0; a < NSCR; a++) for (b = a; b < NSCR; b++) { CB[NCB].ns = 2; CB[NCB].sc[0] = a; CB[NCB].sc[1] = b; NCB++; }
-	for (a = 0; a < NSCR; a++) for (b = a; b < NSCR; b++) for (c = b; c < NSCR; c++) { if (!thorough && a == b && b == c) continue; CB[NCB].ns = 3; CB[NCB].sc[0] = a; CB[NCB].sc[1] = b; CB[NCB].sc[2] = c; NCB++; }
+	for (a = 0; a < NSCR; a++) for (b = a; b < NSCR; b++) for (c = b; c < NSCR; c++) { if (!thorough && a == b && b == c) continue; if (SCR[a].k >= 300 || SCR[b].k >= 300 || SCR[c].k >= 300) { if (!(thorough && a != b && b != c)) continue; } CB[NCB].ns = 3; CB[NCB].sc[0] = a; CB[NCB].sc[1] = b; CB[NCB].sc[2] = c; NCB++; }
 	{	/* four sessions alive at once: every set of four distinct scripts, each script run in one or two pieces (<= 3 / 4 switches) */
 		int d;
 		for (a = 0; a < NSCR; a++) for (b = a + 1; b < NSCR; b++) for (c = b + 1; c < NSCR; c++) for (d = c + 1; d < NSCR; d++) {
 			if (!thorough && ((a + b + c + d) % 3)) continue;
+			if (SCR[a].k >= 300 || SCR[b].k >= 300 || SCR[c].k >= 300 || SCR[d].k >= 300) continue;
 			CB[NCB].ns = 4; CB[NCB].sc[0] = a; CB[NCB].sc[1] = b; CB[NCB].sc[2] = c; CB[NCB].sc[3] = d; CB[NCB].maxsw = thorough ? 4 : 3; NCB++;
 		}
 	}
